@@ -287,7 +287,7 @@ def stepRewrite (_ : Unit) (t : List String) : Unit × String :=
   | "bad" :: _ => "?"          -- the harness could not even serialise (structure broken): oracle-only line
   | ["design", _] => "ok"       -- marker: the following lines belong to design number n
   | ["randaig", _] => "ok"
-  | ["dangling", _] => "?"     -- structural observation of the real netlist: oracle-only line
+  | ["dangling", _, _] => "?"  -- structural observation of the real netlist: oracle-only line
   | _ => "bad-op")
 
 def runRewrite : IO Unit := runLines () stepRewrite
